@@ -38,7 +38,7 @@ func (C06) Budget(tier string) (int, time.Duration) {
 	if tier == "thorough" {
 		return 20000, 25 * time.Minute
 	}
-	return 1000, 4 * time.Minute
+	return 3000, 4 * time.Minute
 }
 
 func (C06) Generate(t *tape.Tape, tier string) interface{} {
